@@ -478,6 +478,15 @@ where
                 self.0.load_folders().await?;
             }
 
+            // Reloading the summaries for another folder may have
+            // replaced a name set when the account events were merged
+            // so make sure the in-memory name follows the folder events
+            for event in &events {
+                if let WriteEvent::SetVaultName(name) = event {
+                    self.0.set_folder_name(folder_id, name, Internal)?;
+                }
+            }
+
             outcome.changes += len;
             outcome.tracked.add_tracked_folder_changes(
                 folder_id,
